@@ -21,7 +21,7 @@ from .. import storegen as G
 
 PROP = "C17"
 CLAUSES = {"CwdSameExit", "CwdSameEffects", "CwdSameLocations", "NearestRootWins"}
-CWDS = ["", "pk", "pk/sub", "nocond/deep", "cond-out", "cond-out/pk"]
+CWDS = ["", "pk", "pk/sub", "nocond/deep", "cond-out", "cond-out/pk", "cond"]
 
 
 def commands(rng):
@@ -74,6 +74,7 @@ def matrix_worker(scn):
         root = os.path.join(d, "p")
         S.build_store_project(root, scn)
         os.makedirs(os.path.join(root, "nocond", "deep"), exist_ok=True)
+        os.makedirs(os.path.join(root, "cond"), exist_ok=True)        # its path is a string prefix of <root>/cond-out
         if scn.get("git"):
             # a nested git checkout (vendored clone / submodule) WITHOUT its own cond_config.toml: still the same project
             from .. import project as P
@@ -133,7 +134,8 @@ def scenario(rng, k, label):
     prefix = [G.run_step(rng, 100, again=False, p_fail=0.3)]
     if rng.random() < 0.6:
         prefix.append(G.run_step(rng, 150, again=True, p_fail=0.4))
-    prefix.append({"cmd": "plant", "entries": [e for e in G.gc_plants(rng) if e.get("kind") != "symlink"]})
+    prefix.append({"cmd": "plant", "entries": [e for e in G.gc_plants(rng) if e.get("kind") != "symlink"] + [
+        {"path": "cond-out/pk2/e.task.9", "kind": "dir", "files": {"w": "garbage in a package whose name extends `pk`"}}]})
     scn = {"project": proj, "prefix": prefix, "cmd": (label, 0), "tag": [k, label]}
     if k % 2 == 1:
         proj["config"] = ""
